@@ -10,17 +10,24 @@ COMMON_ASSUMPTIONS = [
 HEADROOM = "machine arithmetic is not treated as mathematical: overflow side conditions are explicit preconditions (`headroom`): fewer than 2^24 indices ever allocated and fewer than 2^31-4 reuses of one index"
 
 PROPS = {
-    'C01': dict(units=['alloc'], witness='alloc',
+    'C01': dict(units=['world'], witness='alloc',
                 assumptions=[HEADROOM, "handles passed to deletion functions were returned by a creation path of the same world (`legit`)"]),
-    'C02': dict(units=['alloc'], witness='alloc',
+    'C02': dict(units=['world'], witness='alloc',
                 assumptions=[HEADROOM, "handles passed in were returned by a creation path of the same world (`legit`); Rust runs Drop::drop once for an unbuilt builder"]),
-    'C17': dict(units=['alloc'], witness='alloc',
+    'C17': dict(units=['world'], witness='alloc',
                 assumptions=[HEADROOM]),
+    'C05': dict(units=['world'], witness='alloc',
+                assumptions=[HEADROOM, "WorldExt::delete_components is an ASSUMED contract (its body iterates shred's MetaTable<dyn AnyStorage>): it removes exactly the given indices from every listed storage and touches nothing else",
+                             "World accessors (entities_mut, write_resource) are stubs with the documented shred behaviour; LazyUpdate::maintain is unconstrained"]),
 }
 
 TB = "Trusted: prelude stubs for hibitset / NonZeroI32 / atomics / Vec::extend (assumed contracts), N3 sequentialisation, headroom preconditions, Verus+Z3, the vx extractor's closed list of normalisations (each application recorded in the evidence)."
 
 MANIFEST_TEXT = {
+    'C05': dict(
+        level="Unbounded proof of the call-site obligations: delete_entities hands delete_components exactly the killed prefix on both paths (the #766 shape), delete_entity likewise, maintain purges exactly the handles merge() returned (whenever there are any), and lemmas show the invariant 'no listed storage holds a component at an unoccupied index' is preserved, so a (re)used index starts empty. The walk over the storage table itself (delete_components: trait objects in shred's MetaTable) is an assumed contract; AnyStorage::drop for MaskedStorage is proved in unit storage.",
+        design_ref='DESIGN.md §5 C05', note=TB + ' delete_components/MetaTable iteration assumed.',
+        technique='Verus contracts on extracted world_ext.rs functions + invariant lemmas; assumed contract for the MetaTable walk'),
     'C01': dict(
         level="Unbounded proof: every function of the allocator that can hand out or retire an index (allocate, allocate_atomic, kill, kill_atomic, merge and their callees) is verified by Verus against a representation invariant and an exact abstract transition; a trace lemma proved by induction over arbitrary-length chains of those transitions shows two creations never return the same (index, generation). Tests sample 3 histories; this covers all.",
         design_ref='DESIGN.md §4, §5 C01', note=TB,
